@@ -31,30 +31,36 @@ var vfC18Kinds = []string{"READ", "READ", "READ", "READ", "WRITE", "WRITE", "FST
 func vfGenC18(t *rapid.T) vfCaseC18 {
 	c := vfCaseC18{Srv: vfGenSrvCfg(t)}
 	vfMaybeReadOnly(t, &c.Srv)
-	c.Srv.HOpts.OpenFile = false
 	np := rapid.IntRange(1, 2).Draw(t, "phases")
 	for i := 0; i < np; i++ {
 		var ph vfPhase
 		if i == 0 {
-			// handle 0,1: read handles on two files of distinct content; 2: write handle; 3: directory
-			ph.Sync = []vfReq{{T: "OPEN", P: 0, Pflags: 1}, {T: "OPEN", P: 13, Pflags: 1}, {T: "OPEN", P: 8, Pflags: 0x1a}, {T: "OPENDIR", P: 1}}
+			// handle 0,1: read handles on two files of distinct content; 2: write handle; 3: directory;
+			// 4: read+write handle that is only read, 5: read+write handle that is only written (seed C18-b: the
+			// request server serves those through a third code path when the handler implements OpenFileWriter)
+			ph.Sync = []vfReq{{T: "OPEN", P: 0, Pflags: 1}, {T: "OPEN", P: 13, Pflags: 1}, {T: "OPEN", P: 8, Pflags: 0x1a}, {T: "OPENDIR", P: 1},
+				{T: "OPEN", P: 0, Pflags: 3}, {T: "OPEN", P: 14, Pflags: 0x1b}}
 		}
 		nb := rapid.IntRange(3, 40).Draw(t, "nburst")
-		woff := 0
+		woff, woff5 := 0, 0
 		for k := 0; k < nb; k++ {
 			r := vfGenReq(t, vfC18Kinds)
 			switch r.T {
 			case "READ":
-				r.H = rapid.SampledFrom([]int{0, 0, 1, 1, -1}).Draw(t, "rh")
+				r.H = rapid.SampledFrom([]int{0, 0, 1, 1, 4, 4, -1}).Draw(t, "rh")
 				r.Off = rapid.SampledFrom([]int{0, 1, 2, 50, 200, 299, 300}).Draw(t, "roff")
 				r.Len = rapid.SampledFrom([]int{1, 3, 100, 300, 32768}).Draw(t, "rlen")
 			case "WRITE":
-				r.H = 2
-				r.Off = woff
 				r.Len = rapid.SampledFrom([]int{1, 10, 300}).Draw(t, "wlen")
-				woff += r.Len
+				if rapid.IntRange(0, 2).Draw(t, "wrw") == 0 {
+					r.H, r.Off = 5, woff5
+					woff5 += r.Len
+				} else {
+					r.H, r.Off = 2, woff
+					woff += r.Len
+				}
 			case "FSTAT":
-				r.H = rapid.SampledFrom([]int{0, 1, -1}).Draw(t, "fh")
+				r.H = rapid.SampledFrom([]int{0, 1, 4, -1}).Draw(t, "fh")
 			case "READDIR":
 				r.H = 3
 			case "CLOSE":
@@ -62,7 +68,7 @@ func vfGenC18(t *rapid.T) vfCaseC18 {
 			case "SETSTAT", "REMOVE", "RENAME", "POSIXRENAME", "HARDLINK", "MKDIR", "RMDIR", "SYMLINK", "LSTAT", "STAT", "READLINK":
 				// keep commands away from the files behind the rw handles (indices 0, 8, 13) and from their directory
 				fix := func(p int) int {
-					for _, bad := range []int{0, 8, 13, 12, 1, 5, 6} {
+					for _, bad := range []int{0, 8, 13, 12, 1, 5, 6, 14} {
 						if p == bad {
 							return 9 // new2
 						}
